@@ -32,7 +32,7 @@ def _job(args):
 
 def sig_of(t, bad, l):
     c = t["cfg"]
-    sig = {"method": c.get("method", "GET"), "version": c["version"], "ctype": c["ctype"], "ae": c["ae"], "pre": c["pre"], "at": bad["a"] if bad else None,
+    sig = {"method": c.get("method", "GET"), "resp": c.get("resp", "200"), "version": c["version"], "ctype": c["ctype"], "ae": c["ae"], "pre": c["pre"], "at": bad["a"] if bad else None,
            "ops": "-".join(e["a"] for e in t["ev"] if e["a"] not in ("end", "response"))[:80]}
     if bad and bad["a"] == "response":
         ob = bad["obs"]
@@ -52,12 +52,14 @@ AES = ["absent", "gzip", "deflate, gzip", "gzip, deflate, br", "gzip;q=0.5", "x-
 
 def random_case(rng):
     cfg = {"version": rng.choice(["1.1", "1.1", "1.0"]), "ctype": rng.choice(CTYPES), "ae": rng.choice(AES),
-           "pre": rng.choice(["none", "none", "none", "vary", "ce"])}
+           "pre": rng.choice(["none", "none", "none", "vary", "ce"]), "resp": rng.choice(["200", "200", "200", "304", "204"])}
     ops = []
     for _ in range(rng.randint(1, 6)):
         r = rng.random()
+        if r < 0.6 and cfg["resp"] == "204":
+            continue
         if r < 0.6:
-            n = rng.choice([0, 1, 7, 100, 511, 1023, 1024, 1025, 2000, 3000])
+            n = 0 if cfg["resp"] == "204" else rng.choice([0, 1, 7, 100, 511, 1023, 1024, 1025, 2000, 3000])
             mode = rng.random()
             if mode < 0.4:
                 data = bytes([rng.choice(b"ab")]) * n
@@ -69,7 +71,7 @@ def random_case(rng):
         elif r < 0.85:
             ops.append(("flush", []))
         else:
-            ops.append(("finish", [drv.rle(b"z" * rng.choice([0, 0, 1, 1024]))]))
+            ops.append(("finish", [drv.rle(b"z" * (0 if cfg["resp"] == "204" else rng.choice([0, 0, 1, 1024])))]))
     kw = {}
     if rng.random() < 0.25:
         kw["write_plan"] = [rng.choice([1, 5, 64, 500]) for _ in range(60)]
@@ -81,6 +83,10 @@ def run(ctx):
            overrides=ctx.pick({}, {"MaxOps": 4, "Lens": "{0, 1, 1023, 1024, 1025}", "Versions": '{"1.0", "1.1"}'}))
     paths = ctx.gen_paths(FAM, "Gen_Gzip", "Gen_Gzip.cfg",
                           overrides=ctx.pick({}, {"Lens": "{0, 1, 1023, 1024, 1025}", "Pres": '{"none", "vary", "ce"}'}))
+    # bodyless answers: status 204, and the 304 substituted for a matching If-None-Match ("Vary always ...")
+    paths += ctx.gen_paths(FAM, "Gen_Gzip", "Gen_Gzip.cfg",
+                           overrides={"Resps": '{"204", "304"}', "Lens": "{0, 1024}", "MaxOps": 2, "L": 3,
+                                      "CTypes": '{"default", "image/png"}', "AEs": '{"absent", "gzip"}'})
     jobs = []
     for i, (extra, path) in enumerate(paths):
         ops = [(s["act"], s["args"]) for s in path if s["act"] != "end"]
@@ -94,7 +100,7 @@ def run(ctx):
         cfg, ops, kw = random_case(rng)
         rjobs.append((base + i + 1, cfg, ops, kw))
     traces = framework.pool_map(_job, jobs + rjobs)
-    ctx.validate(FAM, "Trace_Gzip", "Trace_Gzip.cfg", traces, label="s2c+c2s", sig_fn=drv.with_kind(sig_of, base + 1))
+    ctx.validate(FAM, "Trace_Gzip", "Trace_Gzip.cfg", traces, label="s2c+c2s", sig_fn=drv.with_kind(sig_of, base + 1), timeout=900)
     nhead = drv.head_vs_get(ctx, sig_of)
     ctx.note("head_vs_get_traces", nhead)
     enc = sum(1 for t in traces if t["ev"][-1]["obs"]["gz"]["used"])
@@ -118,7 +124,7 @@ def replay(ctx, rec):
         return 1
     ops = [(e["a"], e["args"]) for e in t["ev"] if e["a"] not in ("end", "response")]
     t2 = drv.gz_trace(t["id"], t["cfg"], ops)
-    v = ctx.validate(FAM, "Trace_Gzip", "Trace_Gzip.cfg", [t2], label="replay", sig_fn=sig_of, shards=1)
+    v = ctx.validate(FAM, "Trace_Gzip", "Trace_Gzip.cfg", [t2], label="replay", sig_fn=sig_of, shards=1, timeout=900)
     bad = v[t2["id"]]
     ob = t2["ev"][-1]["obs"]
     print("replay: cfg=%s ops=%s" % (t["cfg"], str(ops)[:300]))
